@@ -156,6 +156,8 @@ trait AnySession {
 
 struct Sess<S: ShapeOps> {
     slots: HashMap<usize, Slot<S>>,
+    /// the configuration a `Slot::Tl` was built from, as long as nothing (start_with) has changed the built timeline since
+    cfgs: HashMap<usize, Cfg>,
     /// running target for `updchain` (set by every `upd` to its input target)
     chain: Option<S::Target>,
 }
@@ -232,6 +234,7 @@ impl<S: ShapeOps> AnySession for Sess<S> {
                 let slot: usize = w[1].parse().unwrap();
                 let cfg = parse_cfg::<S>(w, 3);
                 self.slots.insert(slot, Slot::Tl(S::build(&cfg)));
+                self.cfgs.insert(slot, cfg);
                 "ok".into()
             }
             "meta" => match self.slots.get(&w[1].parse().unwrap()) {
@@ -242,6 +245,7 @@ impl<S: ShapeOps> AnySession for Sess<S> {
             },
             "start" => {
                 let vs = S::from_vals(&parse_vals::<S>(&w[2..]));
+                self.cfgs.remove(&w[1].parse().unwrap());
                 match self.slots.get_mut(&w[1].parse().unwrap()) {
                     Some(Slot::Tl(t)) => { t.start_with(&vs); "ok".into() }
                     Some(Slot::Mg(m)) => { m.start_with(&vs); "ok".into() }
@@ -251,6 +255,7 @@ impl<S: ShapeOps> AnySession for Sess<S> {
             }
             "drop" => {
                 // the object in the slot is dropped now (its allocations go back to the allocator before anything else is built)
+                self.cfgs.remove(&w[1].parse().unwrap());
                 match self.slots.remove(&w[1].parse().unwrap()) { Some(_) => "ok".into(), None => "bad-slot".into() }
             }
             "clone" => {
@@ -261,6 +266,7 @@ impl<S: ShapeOps> AnySession for Sess<S> {
                     _ => return "bad-slot".into(),
                 };
                 self.slots.insert(w[2].parse().unwrap(), c);
+                match self.cfgs.get(&w[1].parse().unwrap()).cloned() { Some(c) => { self.cfgs.insert(w[2].parse().unwrap(), c); } None => { self.cfgs.remove(&w[2].parse().unwrap()); } }
                 "ok".into()
             }
             "updchain" => {
@@ -369,7 +375,14 @@ impl<S: ShapeOps> AnySession for Sess<S> {
                     let tok = w[5 + nf + i];
                     if tok == "-" { continue; }
                     match self.slots.get(&tok.parse().unwrap()) {
-                        Some(Slot::Tl(t)) => b = b.on(st_of(i), if i % 2 == 0 { MergedTimeline::of([t.clone()]) } else { t.clone().into() }),
+                        // four ways a timeline reaches `on`: an explicit merge, `Into<MergedTimeline>`, the timeline itself and the
+                        // un-built configuration (the two derive-generated `TimelineOrBuilder` impls)
+                        Some(Slot::Tl(t)) => b = match (i + slot) % 4 {
+                            0 => b.on(st_of(i), MergedTimeline::of([t.clone()])),
+                            1 => b.on(st_of(i), { let m: MergedTimeline<S::Tl> = t.clone().into(); m }),
+                            2 => b.on(st_of(i), t.clone()),
+                            _ => match self.cfgs.get(&tok.parse().unwrap()) { Some(c) => b.on(st_of(i), S::conf_merged(c)), None => b.on(st_of(i), MergedTimeline::of([t.clone()])) },
+                        },
                         Some(Slot::Mg(m)) => b = b.on(st_of(i), m.clone()),
                         _ => {}
                     }
@@ -480,10 +493,10 @@ pub struct Runner {
 impl Runner {
     pub fn new() -> Self {
         let mut sessions: HashMap<String, Box<dyn AnySession>> = HashMap::new();
-        sessions.insert("S8".into(), Box::new(Sess::<S8Ops> { slots: HashMap::new(), chain: None }));
-        sessions.insert("Q5".into(), Box::new(Sess::<Q5Ops> { slots: HashMap::new(), chain: None }));
-        sessions.insert("R4".into(), Box::new(Sess::<R4Ops> { slots: HashMap::new(), chain: None }));
-        sessions.insert("W20".into(), Box::new(Sess::<W20Ops> { slots: HashMap::new(), chain: None }));
+        sessions.insert("S8".into(), Box::new(Sess::<S8Ops> { slots: HashMap::new(), cfgs: HashMap::new(), chain: None }));
+        sessions.insert("Q5".into(), Box::new(Sess::<Q5Ops> { slots: HashMap::new(), cfgs: HashMap::new(), chain: None }));
+        sessions.insert("R4".into(), Box::new(Sess::<R4Ops> { slots: HashMap::new(), cfgs: HashMap::new(), chain: None }));
+        sessions.insert("W20".into(), Box::new(Sess::<W20Ops> { slots: HashMap::new(), cfgs: HashMap::new(), chain: None }));
         Runner { sessions, slot_shape: HashMap::new(), subs: HashMap::new(), subs_i: HashMap::new() }
     }
 
@@ -609,6 +622,16 @@ impl Runner {
                 let ts = TimeScale::new(fb(w[1]), fb(w[2]), parse_repeat(w[3]), w[4] == "1");
                 let outs: Vec<String> = w[5..].iter().map(|t| show_pos(ts.get_position(fb(t)))).collect();
                 format!("{} {}", show_dur(ts.get_duration()), outs.join(" "))
+            }
+            "prep" => {
+                // the public helper every generated `update` starts with: prep <dur> <delay> <rep> <rev> <time> <n> <boundary times…>
+                let ts = TimeScale::new(fb(w[1]), fb(w[2]), parse_repeat(w[3]), w[4] == "1");
+                let n: usize = w[6].parse().unwrap();
+                let bt: Vec<f32> = (0..n).map(|k| fb(w[7 + k])).collect();
+                match mina_core::timeline::prepare_frame(fb(w[5]), &bt, &ts) {
+                    None => "-".into(),
+                    Some((t, i, o)) => format!("{} {} {}", fbits(t), i, o as u8),
+                }
             }
             "possweep" => {
                 let ts = TimeScale::new(fb(w[1]), fb(w[2]), parse_repeat(w[3]), w[4] == "1");
